@@ -4,7 +4,7 @@
    the allocation (every write of add_bytes / remove_bytes / the notification broadcast lands inside it);
    a pointer tree containing an address of another buffer fails check_pointers (swapped accessors are
    reported no later than the end of the borrow, where the check runs; a STALE recorded inner pointer does not take part,
-   D26).  PROVED for every enum-free shape and histories of list operations at any nesting depth, failures included
+   D26).  PROVED for every shape (generated enums included; `plain t = true` holds of every shape, C01_every_shape) and histories of list operations at any nesting depth, failures included
    (C03_general_...): the outcome is never Fault nor Panic, the allocation keeps its size, and the pointer assertions
    hold in every reachable state.  PROVED for flat shapes (special case): no Fault
    and no pointer assertion in any history (C01_flat_run_refines yields Ok), growth beyond the allocation
